@@ -268,6 +268,13 @@ func (vc *VC) ghostInvariant(name, term string) string {
 	case "G_consumed":
 		vc.declStream()
 		return fmt.Sprintf("(forall ((r Int)) (! (and (<= 0 (select %s r)) (<= (select %s r) (io.total r))) :pattern ((select %s r))))", term, term, term)
+	default:
+		if strings.HasPrefix(name, "Dom_") {
+			// the nil map (reference 0) has no keys
+			srt := vc.heapNames[name] // (Array Int (Array K Bool))
+			inner := srt[len("(Array Int ") : len(srt)-1]
+			return fmt.Sprintf("(= (select %s 0) ((as const %s) false))", term, inner)
+		}
 	case "G_written":
 		return fmt.Sprintf("(forall ((r Int)) (! (<= 0 (select %s r)) :pattern ((select %s r))))", term, term)
 	}
